@@ -95,10 +95,7 @@ class Ctx:
         return canon_function(fi, self.model, opts)
 
     def effects(self):
-        if getattr(self, "_effects", None) is None:
-            from .effects import Effects
-            self._effects = Effects(self.model)
-        return self._effects
+        return self.model.effects()
 
 
 def load_known_findings() -> dict:
